@@ -636,6 +636,10 @@ func (e *AnimEncoder) AddFrame(img image.Image, duration time.Duration) error {
 	// Fast path for pre-encoded bitstream data (no optimization possible).
 	if bf, ok := img.(*bitstreamFrame); ok {
 		e.frameCount++
+		// The canvas after a pre-encoded frame is not known to the encoder:
+		// the next optimized frame must be a key frame, not a difference
+		// against the last canvas it has seen.
+		e.prevCanvas = nil
 		return e.muxer.AddFrame(bf.data, &mux.FrameOptions{
 			Duration: int(duration / time.Millisecond),
 		})
@@ -689,7 +693,7 @@ func (e *AnimEncoder) addOptimizedFrame(img image.Image, duration time.Duration)
 		currCanvas = full
 	}
 
-	isFirstFrame := e.frameCount == 0
+	isFirstFrame := e.frameCount == 0 || e.prevCanvas == nil
 	durMS := int(duration / time.Millisecond)
 
 	if isFirstFrame {
@@ -1207,13 +1211,20 @@ func (e *AnimEncoder) AddRawFrame(bitstreamData []byte, duration time.Duration, 
 	if e.closed {
 		return errors.New("animation: encoder is closed")
 	}
-	return e.muxer.AddFrame(bitstreamData, &mux.FrameOptions{
+	if err := e.muxer.AddFrame(bitstreamData, &mux.FrameOptions{
 		Duration:    int(duration / time.Millisecond),
 		OffsetX:     offsetX,
 		OffsetY:     offsetY,
 		BlendMode:   mux.BlendMode(blend),
 		DisposeMode: mux.DisposeMode(dispose),
-	})
+	}); err != nil {
+		return err
+	}
+	// Count the frame (Close must not replace a two-frame animation by a still
+	// of the one canvas it knows) and forget the canvas: see AddFrame.
+	e.frameCount++
+	e.prevCanvas = nil
+	return nil
 }
 
 // SetICCProfile sets the ICC color profile for the output file.
